@@ -109,14 +109,21 @@ impl Tables {
         })
     }
 
-    fn step_ev(&self, v: &Value) -> event::Step<EvW> {
+    /// Capture locations of a regex with NESTED groups matched against the step text: group 1 spans the whole
+    /// text, groups 2 and 3 (first word, rest) lie inside it. Writers that render captures must still print the
+    /// step text exactly once.
+    fn nested_captures(text: &str) -> regex::CaptureLocations {
+        let re = regex::Regex::new(r"(?s)^((\S*)\s?(.*))$").expect("regex");
+        let mut locs = re.capture_locations();
+        let _ = re.captures_read(&mut locs, text);
+        locs
+    }
+
+    fn step_ev(&self, v: &Value, text: &str) -> event::Step<EvW> {
         match v {
             Value::String(s) => match s.as_str() {
                 "Started" => event::Step::Started,
-                "Passed" => event::Step::Passed(
-                    regex::Regex::new("").expect("regex").capture_locations(),
-                    None,
-                ),
+                "Passed" => event::Step::Passed(Self::nested_captures(text), None),
                 _ => event::Step::Skipped,
             },
             _ => {
@@ -130,7 +137,9 @@ impl Tables {
                 } else {
                     event::StepError::Panic(payload(k[1].as_u64().unwrap_or(0)))
                 };
-                event::Step::Failed(None, None, None, err)
+                // a step that matched and then panicked carries its captures; the other failures have none
+                let caps = if k != "NotFound" && k != "Ambiguous" { Some(Self::nested_captures(text)) } else { None };
+                event::Step::Failed(caps, None, None, err)
             }
         }
     }
@@ -180,14 +189,16 @@ impl Tables {
                         };
                         event::Scenario::Hook(ty, h)
                     }
-                    "Bg" => event::Scenario::Background(
-                        self.step(sc[1].as_u64().unwrap_or(0)),
-                        self.step_ev(&sc[2]),
-                    ),
-                    _ => event::Scenario::Step(
-                        self.step(sc[1].as_u64().unwrap_or(0)),
-                        self.step_ev(&sc[2]),
-                    ),
+                    "Bg" => {
+                        let st = self.step(sc[1].as_u64().unwrap_or(0));
+                        let ev = self.step_ev(&sc[2], &st.value);
+                        event::Scenario::Background(st, ev)
+                    }
+                    _ => {
+                        let st = self.step(sc[1].as_u64().unwrap_or(0));
+                        let ev = self.step_ev(&sc[2], &st.value);
+                        event::Scenario::Step(st, ev)
+                    }
                 };
                 let retries = v[4].as_array().map(|a| Retries {
                     current: a[0].as_u64().unwrap_or(0) as usize,
